@@ -154,6 +154,12 @@ func (r *Run) Report() int {
 			if !hasProp(o.Props, prop) {
 				continue
 			}
+			if o.Kind == "blockcover" {
+				if o.Status == "vacuous" {
+					fmt.Printf("BLOCK-UNREACHABLE %s  %s:%d\n", o.Name, shortFile(o.Pos.Filename), o.Pos.Line)
+				}
+				continue
+			}
 			if o.Cover && o.Status == "vacuous" && o.Rel != nil && o.Rel.Status != "covered" {
 				covers++
 				continue // the call site itself is unreachable: nothing became vacuous at this call
